@@ -17,6 +17,8 @@ NEEDS = {
     "C15-2": "a TCP write failing (reset, or client Stop mid-transfer with two sessions on one underlay) before anyone else has closed that session: runOutputOnceStream calls closeWithError while still holding oLock (defer) and self-deadlocks",
     "C03-1": "UDP client session, first write > 1024 bytes (or low entropy on) so data does not ride on the open request, Close() within the first round trip before the open response arrives; no loss involved",
     "C03-2": "TCP, slow reader with >= 4353 unread segments (receive queue 4096 + 1 held + channel 256) at the instant the close request reaches the receiver; nothing lost on the wire",
+    "C04-1": "reflection splice by an on-path attacker: the client's own datagrams (or, on TCP, its own second segment behind its initial nonce advanced by 2) fed back to the client before the server's data with the same sequence numbers arrives; the direction check of data/ack segments was dropped",
+    "C04-2": "UDP: one datagram modified (discarded by the AEAD as if lost) while later ones get through, and the sender's close request arriving before a retransmission: the new flushRecvBuf releases out-of-order segments across the gap",
     "C05-1": "a copy of a genuine first TCP segment that ends inside its suffix padding (>= 1 padding byte, not all) followed by a stall or half-close",
     "C05-2": "a genuine first UDP datagram followed by exactly 256/512/768/1024 extra bytes (still within the 1500-byte receive buffer)",
     "C06-1": "a replay-cache generation that fills up (rotation by size) shortly before its time expiry, then one more lookup just after that expiry (rotation by time): two cooperating branches",
